@@ -6,7 +6,7 @@ from __future__ import annotations
 import numpy as np
 
 from ..core import HarnessError, require, require_close, require_equal
-from ..gen.eqsystems import c06_spec, compose_equation, counts_of, image_blocks
+from ..gen.eqsystems import apply_step, c06_spec, compose_equation, counts_of, image_blocks
 from ..gen.mdgrids import mdg_labels
 from ..gen.optrees import Builder, Setup, leaf_table
 
@@ -26,7 +26,12 @@ RULE = (
     "A_full[rows][:, cols], b_full[rows] (rtol 1e-13) with rows = for each requested equation in set order the blocks "
     "of the requested grids in md order, cols = sorted union of the dof blocks; assembled_equation_indices are the "
     "consecutive row ranges of exactly the requested equations; assemble(evaluate_jacobian=False) equals b_full[rows] "
-    "(rtol 1e-11) and leaves assembled_equation_indices untouched. Non-trivial = some request has a strict grid "
+    "(rtol 1e-11) and leaves assembled_equation_indices untouched. Before assembling, 40 % of the systems go through "
+    "an equation history of 1-3 further steps in generated order: update_equation (grids omitted or given, possibly of "
+    "the other kind; equations_per_grid_entity omitted, repeated or changed; new operator of the resulting image size), "
+    "remove_equation, set_equation under a removed or a fresh name; the model is: set appends, remove deletes, update = "
+    "remove + set under the same name with omitted arguments taken from the previous equation (docstring); all oracles "
+    "apply to the system as it stands after the history. Non-trivial = some request has a strict grid "
     "restriction, an equation list that is not in set order, or a variable subset that is strict and not a prefix of "
     "the dof vector; distinct = hash of spec."
 )
@@ -48,7 +53,9 @@ ASSUMPTIONS = [
 REQUIRED = {"eq-dict": 0.2, "eq-names": 0.08, "eq-ops": 0.08, "eq-none": 0.08, "var-atomic": 0.15, "var-names": 0.08,
             "var-md": 0.08, "var-none": 0.08, "var-empty": 0.05, "strict-grid-restriction": 0.15, "request-not-in-set-order": 0.1,
             "multi-grid-equation": 0.3, "interface-equation": 0.1, "face-or-node-rows": 0.2, "lifted": 0.3,
-            "evaluated": 0.9}
+            "evaluated": 0.9, "eq-history": 0.25, "eq-updated-without-grids": 0.15, "eq-updated-with-grids": 0.05,
+            "eq-updated-new-size": 0.1, "eq-updated-new-multiplicity-without-grids": 0.05, "eq-removed": 0.05,
+            "eq-readded": 0.01, "restriction-non-contiguous-rows": 0.01}
 
 
 def strategy(tier):
@@ -78,12 +85,26 @@ def check(spec):
     if state is not None:
         labels.add("explicit-state")
 
-    # ---------------------------------------------------------------- set the equations
-    ops, blocks, vals, jacs = [], [], [], []
-    for e in spec["eqs"]:
+    # ---------------------------------------------------------------- equation history
+    steps = spec.get("steps")
+    if steps is None:  # replay files written before histories existed
+        steps = [dict(e, op="set") for e in spec["eqs"]]
+    model, built, removed_names = [], {}, set()
+    for st_ in steps:
+        if st_["op"] == "remove":
+            apply_step(model, st_)
+            gone = es.remove_equation(st_["name"])
+            require(gone is built[st_["name"]]["op"], "remove-returns-operator",
+                    "remove_equation did not return the operator that was set")
+            del built[st_["name"]]
+            removed_names.add(st_["name"])
+            labels.update(("eq-history", "eq-removed"))
+            continue
+        old = next((dict(e) for e in model if e["name"] == st_["name"]), None) if st_["op"] == "update" else None
+        e = apply_step(model, st_)
         blk = image_blocks(e, sdc, ic)
         m = sum(b for _, b in blk)
-        node = compose_equation(e, m, spec["vars"], leaves)
+        node = compose_equation(st_, m, spec["vars"], leaves)
         with np.errstate(all="ignore"):
             mirror, op = B.visit(node)
         if type(op) is not pp.ad.Operator:
@@ -93,13 +114,37 @@ def check(spec):
         v, J = _mirror_parts(mirror, m, n)
         if v.size != m:
             raise HarnessError(f"equation {e['name']}: mirror has {v.size} rows, image has {m}")
-        op.set_name(e["name"])
         pool = S.sds if e["on"] == "sd" else S.intfs
-        es.set_equation(op, [pool[g] for g in e["grids"]], dict(e["per"]))
-        ops.append(op)
-        blocks.append(blk)
-        vals.append(v)
-        jacs.append(J)
+        if st_["op"] == "set":
+            op.set_name(e["name"])
+            es.set_equation(op, [pool[g] for g in e["grids"]], dict(e["per"]))
+            if e["name"] in removed_names:
+                labels.update(("eq-history", "eq-readded"))
+        else:
+            kwargs = {}
+            if st_["grids"] is not None:
+                kwargs["grids"] = [pool[g] for g in st_["grids"]]
+                labels.add("eq-updated-with-grids")
+            else:
+                labels.add("eq-updated-without-grids")
+            if st_["per"] is not None:
+                kwargs["equations_per_grid_entity"] = dict(st_["per"])
+            es.update_equation(e["name"], op, **kwargs)
+            labels.add("eq-history")
+            old_m = sum(b for _, b in image_blocks(old, sdc, ic))
+            if old_m != m:
+                labels.add("eq-updated-new-size")
+            if st_["per"] is not None and {k: c for k, c in st_["per"].items() if c} != {k: c for k, c in old["per"].items() if c}:
+                labels.add("eq-updated-new-multiplicity")
+                if st_["grids"] is None:
+                    labels.add("eq-updated-new-multiplicity-without-grids")
+        built[e["name"]] = {"op": op, "blk": blk, "v": v, "J": J, "m": m, "tsize": st_["tsize"], "base": st_["base"]}
+    ops = [built[e["name"]]["op"] for e in model]
+    blocks = [built[e["name"]]["blk"] for e in model]
+    vals = [built[e["name"]]["v"] for e in model]
+    jacs = [built[e["name"]]["J"] for e in model]
+    for e in model:
+        bb = built[e["name"]]
         if len(e["grids"]) >= 2:
             labels.add("multi-grid-equation")
         if not e["grids"]:
@@ -108,16 +153,18 @@ def check(spec):
             labels.add("interface-equation")
         if e["per"].get("faces", 0) or e["per"].get("nodes", 0):
             labels.add("face-or-node-rows")
-        if e["tsize"] != m:
+        if bb["tsize"] != bb["m"]:
             labels.add("lifted")
-        if e["base"] is None and m:
+        if bb["base"] is None and bb["m"]:
             labels.add("pure-tree-equation")
+    if not model:
+        labels.add("no-equation-left")
     allv = np.concatenate(vals) if vals else np.zeros(0)
     if not np.all(np.isfinite(allv)) or (allv.size and np.max(np.abs(allv)) > 1e8) or \
             any((not np.all(np.isfinite(J))) or (J.size and np.max(np.abs(J)) > 1e10) for J in jacs):
         return {"labels": ["discarded-nonfinite"], "nontrivial": False}
     labels.add("evaluated")
-    names = [e["name"] for e in spec["eqs"]]
+    names = [e["name"] for e in model]
     sizes = [v.size for v in vals]
     starts = np.concatenate(([0], np.cumsum(sizes))).astype(int)
 
@@ -159,14 +206,18 @@ def check(spec):
         else:
             eq_arg = {}
             for k, how, grids in er["items"]:
-                pool = S.sds if spec["eqs"][k]["on"] == "sd" else S.intfs
+                pool = S.sds if model[k]["on"] == "sd" else S.intfs
                 eq_arg[names[k] if how == "name" else ops[k]] = [pool[g] for g in grids]
                 chosen[k] = set(grids)
-                if set(grids) != set(spec["eqs"][k]["grids"]):
+                if set(grids) != set(model[k]["grids"]):
                     labels.add("strict-grid-restriction")
                     nontrivial = True
-                if not grids and spec["eqs"][k]["grids"]:
+                if not grids and model[k]["grids"]:
                     labels.add("restricted-to-no-grid")
+                gk = sorted(model[k]["grids"])
+                pos_ = sorted(gk.index(g) for g in grids)
+                if pos_ and pos_ != list(range(pos_[0], pos_[0] + len(pos_))) and all(b for _, b in blocks[k]):
+                    labels.add("restriction-non-contiguous-rows")
                 if len(grids) >= 2 and grids != sorted(grids):
                     labels.add("restriction-grids-unordered")
             labels.add("eq-dict")
